@@ -103,10 +103,16 @@ def r2(ctx):
 @rule("C17", "R3", "ORDER", "cluster sizes and member lists used by the index are the current partition")
 def r3(ctx):
     from . import c13
-    c13.r2(ctx)
+    ctx.sub(c13.r2)
 
 
 @rule("C17", "R4", "OWN", "the metric only reads the model it is given")
 def r_readonly(ctx):
     from .c06 import readers_do_not_write
     readers_do_not_write(ctx, ["cluster_metrics.bayesian_information_criterion" if "C17" == "C16" else "cluster_metrics.calinski_harabasz_index"])
+
+
+@rule("C17", "R5", "FLOW", "the cluster mean used by the index is the float mean of the cluster's own windows")
+def r5(ctx):
+    from . import c12
+    ctx.sub(c12.r1)
